@@ -485,60 +485,90 @@ def enumDefP (fuel : Nat) : P EnumDef := fun cs =>
 
 /-! ### services -/
 
+/-- `kw ~ tok_eq ~ type_name_or_inline` (the keywords `args`, `ok`, `err` have no `&ws`). -/
+def kwEqInlineP (k : Str) (fuel : Nat) : P TypeOrInline := fun r =>
+  match kw k r with
+  | none => none
+  | some ((), r) =>
+    match tok (chars! "=") r with
+    | none => none
+    | some ((), r) => typeOrInlineP fuel (skipWs r)
+
 /-- `fn_args`, `fn_ok`, `fn_err`: `comment* ~ kw ~ tok_eq ~ type_name_or_inline` -/
-def fnPartP (k : Str) (fuel : Nat) : P FnPart := fun cs => do
-  let (pre, r) := preludeP true false false fuel cs
-  let ((), r) ← kw k r
-  let ((), r) ← tok (chars! "=") r
-  let (t, r) ← typeOrInlineP fuel (skipWs r)
-  pure ({ comment := preComments pre, ty := t }, r)
+def fnPartP (k : Str) (fuel : Nat) : P FnPart := fun cs =>
+  let pre := preludeP true false false fuel cs
+  match kwEqInlineP k fuel pre.2 with
+  | none => none
+  | some (t, r) => some ({ comment := preComments pre.1, ty := t }, r)
 
 def optP {α : Type} (p : P α) (cs : Str) : Option α × Str :=
   match p cs with
   | some (a, r) => (some a, r)
   | none => (none, cs)
 
+/-- `fn_body_full = _{ tok_cur_open ~ fn_args? ~ fn_ok? ~ fn_err? ~ tok_cur_close }` -/
+def fnBodyFullP (fuel : Nat) : P (Option FnPart × Option FnPart × Option FnPart) := fun r =>
+  match kw (chars! "{") r with
+  | none => none
+  | some ((), r) =>
+    let a := optP (fnPartP (chars! "args") fuel) (skipWs r)
+    let o := optP (fnPartP (chars! "ok") fuel) (skipWs a.2)
+    let e := optP (fnPartP (chars! "err") fuel) (skipWs o.2)
+    match tok (chars! "}") e.2 with
+    | none => none
+    | some ((), r) => some ((a.1, o.1, e.1), r)
+
+/-- `tok_eq ~ type_name_or_inline` -/
+def eqInlineP (fuel : Nat) : P TypeOrInline := fun r =>
+  match kw (chars! "=") r with
+  | none => none
+  | some ((), r) => typeOrInlineP fuel (skipWs r)
+
+/-- `fn_body = _{ fn_body_full | fn_body_ok | tok_term }` -/
+def fnBodyP (fuel : Nat) : P (Option FnPart × Option FnPart × Option FnPart) := fun r =>
+  match fnBodyFullP fuel r with
+  | some x => some x
+  | none =>
+    match eqInlineP fuel r with
+    | some (t, r) => some ((none, some { comment := [], ty := t }, none), r)
+    | none => (kw (chars! ";") r).map (fun ((), r) => ((none, none, none), r))
+
+/-- `kw ~ ident ~ tok_at ~ lit_int` and the white space after it. -/
+def itemHeadP (k : Str) : P (Str × Str) := fun cs =>
+  match kwWs k cs with
+  | none => none
+  | some ((), r) =>
+    match nameIdP (skipWs r) with
+    | none => none
+    | some (x, r) => some (x, skipWs r)
+
 /-- `fn_def` -/
-def fnDefP (fuel : Nat) : P FnDef := fun cs => do
-  let (pre, r) := preludeP true true false fuel cs
-  let ((), r) ← kwWs (chars! "fn") r
-  let (name, r) ← identP (skipWs r)
-  let ((), r) ← tok (chars! "@") r
-  let (id, r) ← litIntP (skipWs r)
-  let r := skipWs r
-  -- fn_body = _{ fn_body_full | fn_body_ok | tok_term }
-  let full : Option ((Option FnPart × Option FnPart × Option FnPart) × Str) := do
-    let ((), r) ← kw (chars! "{") r
-    let (a, r) := optP (fnPartP (chars! "args") fuel) (skipWs r)
-    let (o, r) := optP (fnPartP (chars! "ok") fuel) (skipWs r)
-    let (e, r) := optP (fnPartP (chars! "err") fuel) (skipWs r)
-    let ((), r) ← tok (chars! "}") r
-    pure ((a, o, e), r)
-  let ((a, o, e), r) ← match full with
-    | some x => some x
-    | none =>
-      match (do
-        let ((), r) ← kw (chars! "=") r
-        let (t, r) ← typeOrInlineP fuel (skipWs r)
-        pure (t, r)) with
-      | some (t, r) => some ((none, some { comment := [], ty := t }, none), r)
-      | none => (kw (chars! ";") r).map (fun ((), r) => ((none, none, none), r))
-  pure ({ comment := preComments pre, doc := preDocs pre, name := name, id := id, args := a, ok := o, err := e }, r)
+def fnDefP (fuel : Nat) : P FnDef := fun cs =>
+  let pre := preludeP true true false fuel cs
+  match itemHeadP (chars! "fn") pre.2 with
+  | none => none
+  | some ((name, id), r) =>
+    match fnBodyP fuel r with
+    | none => none
+    | some ((a, o, e), r) =>
+      some ({ comment := preComments pre.1, doc := preDocs pre.1, name := name, id := id, args := a, ok := o, err := e }, r)
+
+/-- `(tok_eq ~ type_name_or_inline) | tok_term` -/
+def eventBodyP (fuel : Nat) : P (Option TypeOrInline) := fun r =>
+  match eqInlineP fuel r with
+  | some (t, r) => some (some t, r)
+  | none => (kw (chars! ";") r).map (fun ((), r) => (none, r))
 
 /-- `event_def` -/
-def eventDefP (fuel : Nat) : P EventDef := fun cs => do
-  let (pre, r) := preludeP true true false fuel cs
-  let ((), r) ← kwWs (chars! "event") r
-  let (name, r) ← identP (skipWs r)
-  let ((), r) ← tok (chars! "@") r
-  let (id, r) ← litIntP (skipWs r)
-  let r := skipWs r
-  let (ty, r) ← match (do
-      let ((), r) ← kw (chars! "=") r
-      typeOrInlineP fuel (skipWs r)) with
-    | some (t, r) => some (some t, r)
-    | none => (kw (chars! ";") r).map (fun ((), r) => (none, r))
-  pure ({ comment := preComments pre, doc := preDocs pre, name := name, id := id, ty := ty }, r)
+def eventDefP (fuel : Nat) : P EventDef := fun cs =>
+  let pre := preludeP true true false fuel cs
+  match itemHeadP (chars! "event") pre.2 with
+  | none => none
+  | some ((name, id), r) =>
+    match eventBodyP fuel r with
+    | none => none
+    | some (ty, r) =>
+      some ({ comment := preComments pre.1, doc := preDocs pre.1, name := name, id := id, ty := ty }, r)
 
 def serviceItemP (fuel : Nat) : P ServiceItem := fun cs =>
   match fnDefP fuel cs with
@@ -546,97 +576,149 @@ def serviceItemP (fuel : Nat) : P ServiceItem := fun cs =>
   | none => (eventDefP fuel cs).map (fun (e, r) => (.event e, r))
 
 /-- `fn_fallback`, `event_fallback` -/
-def itemFallbackP (k : Str) (fuel : Nat) : P Fallback := fun cs => do
-  let (pre, r) := preludeP true true false fuel cs
-  let ((), r) ← kwWs k r
-  let (name, r) ← identP (skipWs r)
-  let ((), r) ← tok (chars! "=") r
-  let ((), r) ← tok (chars! "fallback") r
-  let ((), r) ← tok (chars! ";") r
-  pure ({ comment := preComments pre, doc := preDocs pre, name := name }, r)
+def itemFallbackP (k : Str) (fuel : Nat) : P Fallback := fun cs =>
+  let pre := preludeP true true false fuel cs
+  match kwWs k pre.2 with
+  | none => none
+  | some ((), r) =>
+    match fallbackTailP (skipWs r) with
+    | none => none
+    | some (name, r) => some ({ comment := preComments pre.1, doc := preDocs pre.1, name := name }, r)
 
 /-- `service_fallback = { (fn_fallback ~ event_fallback?) | (event_fallback ~ fn_fallback?) }` -/
 def serviceFallbackP (fuel : Nat) : P (Option Fallback × Option Fallback) := fun cs =>
   match itemFallbackP (chars! "fn") fuel cs with
   | some (f, r) =>
-    let (e, r') := optP (itemFallbackP (chars! "event") fuel) (skipWs r)
-    some ((some f, e), if e.isSome then r' else r)
+    some ((some f, (optP (itemFallbackP (chars! "event") fuel) (skipWs r)).1),
+      (optP (itemFallbackP (chars! "event") fuel) (skipWs r)).2)
   | none =>
     match itemFallbackP (chars! "event") fuel cs with
     | some (e, r) =>
-      let (f, r') := optP (itemFallbackP (chars! "fn") fuel) (skipWs r)
-      some ((f, some e), if f.isSome then r' else r)
+      some (((optP (itemFallbackP (chars! "fn") fuel) (skipWs r)).1, some e),
+        (optP (itemFallbackP (chars! "fn") fuel) (skipWs r)).2)
     | none => none
 
-def serviceDefP (fuel : Nat) : P ServiceDef := fun cs => do
-  let (pre, r) := preludeP true true false fuel cs
-  let ((), r) ← kwWs (chars! "service") r
-  let (name, r) ← identP (skipWs r)
-  let ((), r) ← tok (chars! "{") r
-  -- service_uuid = { comment* ~ kw_uuid ~ tok_eq ~ lit_uuid ~ tok_term }
-  let (uc, r) := preludeP true false false fuel (skipWs r)
-  let ((), r) ← kw (chars! "uuid") r
-  let ((), r) ← tok (chars! "=") r
-  let (uuid, r) ← litUuidP (skipWs r)
-  let ((), r) ← tok (chars! ";") r
-  let (vc, r) := preludeP true false false fuel (skipWs r)
-  let ((), r) ← kw (chars! "version") r
-  let ((), r) ← tok (chars! "=") r
-  let (ver, r) ← litIntP (skipWs r)
-  let ((), r) ← tok (chars! ";") r
-  let (items, r) := many (serviceItemP fuel) fuel (skipWs r)
-  let r := skipWs r
-  let ((ff, ef), r) := match serviceFallbackP fuel r with | some (x, r) => (x, r) | none => ((none, none), r)
-  let ((), r) ← tok (chars! "}") r
-  pure ({ comment := preComments pre, doc := preDocs pre, name := name, uuidComment := preComments uc, uuid := uuid,
-          versionComment := preComments vc, version := ver, items := items, fnFallback := ff, evFallback := ef }, r)
+/-- `comment* ~ kw ~ tok_eq ~ lit ~ tok_term` for the `uuid` and `version` lines. -/
+def kwEqLitP (k : Str) (lit : P Str) (fuel : Nat) : P (List Line × Str) := fun cs =>
+  let pre := preludeP true false false fuel cs
+  match kw k pre.2 with
+  | none => none
+  | some ((), r) =>
+    match tok (chars! "=") r with
+    | none => none
+    | some ((), r) =>
+      match lit (skipWs r) with
+      | none => none
+      | some (v, r) =>
+        match tok (chars! ";") r with
+        | none => none
+        | some ((), r) => some ((preComments pre.1, v), skipWs r)
+
+/-- `service_fallback?` -/
+def serviceFallbackOptP (fuel : Nat) (cs : Str) : (Option Fallback × Option Fallback) × Str :=
+  match serviceFallbackP fuel cs with
+  | some (x, r) => (x, r)
+  | none => ((none, none), cs)
+
+/-- `service_item* ~ service_fallback? ~ tok_cur_close` -/
+def serviceBodyP (fuel : Nat) : P (List ServiceItem × Option Fallback × Option Fallback) := fun cs =>
+  let m := many (serviceItemP fuel) fuel cs
+  let fb := serviceFallbackOptP fuel (skipWs m.2)
+  match tok (chars! "}") fb.2 with
+  | none => none
+  | some ((), r) => some ((m.1, fb.1.1, fb.1.2), r)
+
+def serviceDefP (fuel : Nat) : P ServiceDef := fun cs =>
+  let pre := preludeP true true false fuel cs
+  match defOpenP (chars! "service") pre.2 with
+  | none => none
+  | some (name, r) =>
+    match kwEqLitP (chars! "uuid") litUuidP fuel r with
+    | none => none
+    | some ((uc, uuid), r) =>
+      match kwEqLitP (chars! "version") litIntP fuel r with
+      | none => none
+      | some ((vc, ver), r) =>
+        match serviceBodyP fuel r with
+        | none => none
+        | some ((items, ff, ef), r) =>
+          some ({ comment := preComments pre.1, doc := preDocs pre.1, name := name, uuidComment := uc, uuid := uuid,
+                  versionComment := vc, version := ver, items := items, fnFallback := ff, evFallback := ef }, r)
 
 /-! ### consts, newtypes, imports, the file -/
 
 def constKinds : List Prim := [.u8, .i8, .u16, .i16, .u32, .i32, .u64, .i64]
 
-/-- `const_def` -/
-def constDefP (fuel : Nat) : P ConstDef := fun cs => do
-  let (pre, r) := preludeP true true false fuel cs
-  let ((), r) ← kwWs (chars! "const") r
-  let (name, r) ← identP (skipWs r)
-  let ((), r) ← tok (chars! "=") r
-  let r := skipWs r
-  -- const_value = { const_int | const_string | const_uuid }
-  let intV : Option ((Prim × Str) × Str) := do
-    let (k, r) ← firstPrim constKinds r
-    let ((), r) ← tok (chars! "(") r
-    let (v, r) ← litIntP (skipWs r)
-    let ((), r) ← tok (chars! ")") r
-    pure ((k, v), r)
-  let strV : Option ((Prim × Str) × Str) := do
-    let ((), r) ← kw (chars! "string") r
-    let ((), r) ← tok (chars! "(") r
-    let (v, r) ← litStringP (skipWs r)
-    let ((), r) ← tok (chars! ")") r
-    pure ((Prim.string, v), r)
-  let uuidV : Option ((Prim × Str) × Str) := do
-    let ((), r) ← kw (chars! "uuid") r
-    let ((), r) ← tok (chars! "(") r
-    let (v, r) ← litUuidP (skipWs r)
-    let ((), r) ← tok (chars! ")") r
-    pure ((Prim.uuid, v), r)
-  let ((k, v), r) ← match intV with
-    | some x => some x
-    | none => match strV with
-      | some x => some x
-      | none => uuidV
-  let ((), r) ← tok (chars! ";") r
-  pure ({ comment := preComments pre, doc := preDocs pre, name := name, kind := k, value := v }, r)
+/-- `tok_par_open ~ lit ~ tok_par_close` for one kind of literal. -/
+def parenP (lit : P Str) : P Str := fun r =>
+  match tok (chars! "(") r with
+  | none => none
+  | some ((), r) =>
+    match lit (skipWs r) with
+    | none => none
+    | some (v, r) =>
+      match tok (chars! ")") r with
+      | none => none
+      | some ((), r) => some (v, r)
 
-def newtypeDefP (fuel : Nat) : P NewtypeDef := fun cs => do
-  let (pre, r) := preludeP true true true fuel cs
-  let ((), r) ← kwWs (chars! "newtype") r
-  let (name, r) ← identP (skipWs r)
-  let ((), r) ← tok (chars! "=") r
-  let (t, r) ← typeNameP fuel (skipWs r)
-  let ((), r) ← tok (chars! ";") r
-  pure ({ comment := preComments pre, doc := preDocs pre, attrs := preAttrs pre, name := name, target := t }, r)
+/-- `const_int = _{ const_int_kw ~ tok_par_open ~ lit_int ~ tok_par_close }` -/
+def constIntP : P (Prim × Str) := fun r =>
+  match firstPrim constKinds r with
+  | none => none
+  | some (k, r) =>
+    match parenP litIntP r with
+    | none => none
+    | some (v, r) => some ((k, v), r)
+
+/-- `const_string`, `const_uuid`: `kw ~ tok_par_open ~ lit ~ tok_par_close` -/
+def constKwP (k : Str) (p : Prim) (lit : P Str) : P (Prim × Str) := fun r =>
+  match kw k r with
+  | none => none
+  | some ((), r) =>
+    match parenP lit r with
+    | none => none
+    | some (v, r) => some ((p, v), r)
+
+/-- `const_value = { const_int | const_string | const_uuid }` -/
+def constValueP : P (Prim × Str) := fun r =>
+  match constIntP r with
+  | some x => some x
+  | none =>
+    match constKwP (chars! "string") .string litStringP r with
+    | some x => some x
+    | none => constKwP (chars! "uuid") .uuid litUuidP r
+
+/-- `kw ~ ident ~ tok_eq` and the white space after it. -/
+def nameEqP (k : Str) : P Str := fun cs =>
+  match headerP k cs with
+  | none => none
+  | some (name, r) =>
+    match tok (chars! "=") r with
+    | none => none
+    | some ((), r) => some (name, skipWs r)
+
+/-- `const_def` -/
+def constDefP (fuel : Nat) : P ConstDef := fun cs =>
+  let pre := preludeP true true false fuel cs
+  match nameEqP (chars! "const") pre.2 with
+  | none => none
+  | some (name, r) =>
+    match constValueP r with
+    | none => none
+    | some ((k, v), r) =>
+      match tok (chars! ";") r with
+      | none => none
+      | some ((), r) => some ({ comment := preComments pre.1, doc := preDocs pre.1, name := name, kind := k, value := v }, r)
+
+def newtypeDefP (fuel : Nat) : P NewtypeDef := fun cs =>
+  let pre := preludeP true true true fuel cs
+  match nameEqP (chars! "newtype") pre.2 with
+  | none => none
+  | some (name, r) =>
+    match typeTermP fuel r with
+    | none => none
+    | some (t, r) =>
+      some ({ comment := preComments pre.1, doc := preDocs pre.1, attrs := preAttrs pre.1, name := name, target := t }, r)
 
 /-- `def = { struct_def | enum_def | service_def | const_def | newtype_def }` -/
 def defP (fuel : Nat) : P Definition := fun cs =>
@@ -654,26 +736,28 @@ def defP (fuel : Nat) : P Definition := fun cs =>
   | none => (newtypeDefP fuel cs).map (fun (d, r) => (.newtype d, r))
 
 /-- `import_stmt = { comment* ~ kw_import ~ ident ~ tok_term }` -/
-def importP (fuel : Nat) : P Import := fun cs => do
-  let (pre, r) := preludeP true false false fuel cs
-  let ((), r) ← kwWs (chars! "import") r
-  let (name, r) ← identP (skipWs r)
-  let ((), r) ← tok (chars! ";") r
-  pure ({ comment := preComments pre, name := name }, r)
+def importP (fuel : Nat) : P Import := fun cs =>
+  let pre := preludeP true false false fuel cs
+  match headerP (chars! "import") pre.2 with
+  | none => none
+  | some (name, r) =>
+    match tok (chars! ";") r with
+    | none => none
+    | some ((), r) => some ({ comment := preComments pre.1, name := name }, r)
 
 /-- One group of the file prelude: `comment* ~ doc_string_inline`. -/
-def fileGroupP (fuel : Nat) : P (List Line × Line) := fun cs => do
-  let (cms, r) := many commentP fuel cs
-  let (d, r) ← docInlineP (skipWs r)
-  pure ((cms, d), r)
+def fileGroupP (fuel : Nat) : P (List Line × Line) := fun cs =>
+  match docInlineP (skipWs (many commentP fuel cs).2) with
+  | none => none
+  | some (d, r) => some (((many commentP fuel cs).1, d), r)
 
 /-- `file = _{ SOI ~ (comment* ~ doc_string_inline)* ~ import_stmt* ~ def* ~ EOI }` -/
-def fileP (fuel : Nat) (cs : Str) : Option Schema := do
-  let (groups, r) := many (fileGroupP fuel) fuel (skipWs cs)
-  let (imports, r) := many (importP fuel) fuel (skipWs r)
-  let (defs, r) := many (defP fuel) fuel (skipWs r)
-  if (skipWs r).isEmpty then
-    pure { comment := (groups.map (·.1)).flatten, doc := groups.map (·.2), imports := imports, defs := defs }
+def fileP (fuel : Nat) (cs : Str) : Option Schema :=
+  let groups := many (fileGroupP fuel) fuel (skipWs cs)
+  let imports := many (importP fuel) fuel (skipWs groups.2)
+  let defs := many (defP fuel) fuel (skipWs imports.2)
+  if (skipWs defs.2).isEmpty then
+    some { comment := (groups.1.map (·.1)).flatten, doc := groups.1.map (·.2), imports := imports.1, defs := defs.1 }
   else none
 
 def parseSchema (cs : Str) : Option Schema := fileP (cs.length + 2) cs
